@@ -27,6 +27,9 @@ pub struct CaseSubst {
     pub var: (String, String),
     /// macro under test: name, body
     pub mac: (String, Expr),
+    /// second macro whose body may use the first one and the variable
+    #[serde(default)]
+    pub mac2: Option<(String, Expr)>,
     /// the expression that uses them
     pub e: Expr,
     /// optional --split-by in front (so that `^` exists at top level)
@@ -69,11 +72,44 @@ impl Check for C12Subst {
                 let mbody = g.expr(mk, 2, &env_m);
                 let mut env_e = env_m.clone();
                 env_e.macros.push((mname.clone(), mk));
+                let mac2 = if g.tape.chance(1, 2) {
+                    let k2 = *g.tape.pick(&[Num, Str, Bool, Any]);
+                    let b2 = g.expr(k2, 2, &env_e);
+                    env_e.macros.push(("n2".to_string(), k2));
+                    Some(("n2".to_string(), b2))
+                } else {
+                    None
+                };
                 let k = *g.tape.pick(LEAF_KINDS);
-                let e = g.expr(k, 4, &env_e);
+                let mut e = g.expr(k, 4, &env_e);
+                let mut mbody = mbody;
+                let mut mac2 = mac2;
+                if g.tape.chance(1, 4) {
+                    // directed shape: the variable is read by m, m by n2, and n2 / m are used several
+                    // times under different rebindings of the variable (one textual macro reference,
+                    // several evaluations on the same record with different bindings in scope)
+                    let collect = |a: Expr, b: Expr| Expr::call("push", vec![Expr::lit("[]"), a, b]);
+                    if !mentions(&mbody, Some(&vname), None) {
+                        mbody = collect(mbody, Expr::Var(vname.clone()));
+                    }
+                    let b2 = match mac2.take() {
+                        Some((_, b)) if mentions(&b, None, Some(&mname)) => b,
+                        Some((_, b)) => collect(b, Expr::Mac(mname.clone())),
+                        None => collect(Expr::Mac(mname.clone()), Expr::dot()),
+                    };
+                    mac2 = Some(("n2".to_string(), b2));
+                    let rebind = |g: &mut Gen, x: Expr| {
+                        let l = g.lit(vk, 1);
+                        Expr::call("set", vec![Expr::str_lit(&vname), Expr::Lit(l), x])
+                    };
+                    let u1 = rebind(&mut g, Expr::Mac("n2".into()));
+                    let u2 = rebind(&mut g, Expr::Mac("n2".into()));
+                    let u3 = rebind(&mut g, Expr::Mac(mname.clone()));
+                    e = Expr::call("push", vec![Expr::lit("[]"), u1, Expr::Mac("n2".into()), u2, e, u3, Expr::Mac(mname.clone())]);
+                }
                 let nrec = 1 + g.tape.below(3);
                 let records = (0..nrec).map(|_| g.record()).collect();
-                CaseSubst { var: (vname, vlit), mac: (mname, mbody), e, split, before, records }
+                CaseSubst { var: (vname, vlit), mac: (mname, mbody), mac2, e, split, before, records }
             })
             .boxed()
     }
@@ -82,6 +118,9 @@ impl Check for C12Subst {
         let (mn, mb) = (&c.mac.0, &c.mac.1);
         // fully substituted form
         let mut st: Stack = vec![(vn.clone(), Bound::VarLit(vl.clone())), (mn.clone(), Bound::Macro(mb.clone()))];
+        if let Some((n2, b2)) = &c.mac2 {
+            st.push((n2.clone(), Bound::Macro(b2.clone())));
+        }
         let mut fuel = 20_000;
         let s = match expand(&c.e, &mut st, &mut fuel) {
             Ok(s) => s,
@@ -93,8 +132,12 @@ impl Check for C12Subst {
         // in-expression binding forms
         let vname_lit = Expr::str_lit(vn);
         let mname_lit = Expr::str_lit(mn);
-        let f_set_def = Expr::call("set", vec![vname_lit.clone(), Expr::Lit(vl.clone()), Expr::call("define", vec![mname_lit.clone(), mb.clone(), c.e.clone()])]);
-        let f_def_set = Expr::call("define", vec![mname_lit, mb.clone(), Expr::call("set", vec![vname_lit, Expr::Lit(vl.clone()), c.e.clone()])]);
+        let inner = match &c.mac2 {
+            Some((n2, b2)) => Expr::call("define", vec![Expr::str_lit(n2), b2.clone(), c.e.clone()]),
+            None => c.e.clone(),
+        };
+        let f_set_def = Expr::call("set", vec![vname_lit.clone(), Expr::Lit(vl.clone()), Expr::call("define", vec![mname_lit.clone(), mb.clone(), inner.clone()])]);
+        let f_def_set = Expr::call("define", vec![mname_lit, mb.clone(), Expr::call("set", vec![vname_lit, Expr::Lit(vl.clone()), inner])]);
         let sp = Spell::CANON;
         let mut base: Vec<String> = Vec::new();
         if let Some(e) = &c.split {
@@ -108,6 +151,9 @@ impl Check for C12Subst {
         a1.push(select_arg(&f_def_set, "b", &sp));
         a1.push(select_arg(&s, "c", &sp));
         let mut a2 = vec![format!("--set={}={}", vn, vl), format!("--set=@{}={}", mn, print(mb, &sp))];
+        if let Some((n2, b2)) = &c.mac2 {
+            a2.push(format!("--set=@{}={}", n2, print(b2, &sp)));
+        }
         a2.extend(base.clone());
         a2.push(select_arg(&c.e, "a", &sp));
         let input: Vec<u8> = c.records.join("\n").into_bytes();
@@ -160,6 +206,7 @@ impl Check for C12Subst {
                 .class_if(c.split.is_some(), "after_split")
                 .class_if(c.before > 0, "not_first_select")
                 .class_if(shadow, "shadowing")
+                .class_if(c.mac2.as_ref().map(|m| mentions(&m.1, None, Some(mn)) && mentions(&c.e, None, Some("n2"))).unwrap_or(false), "macro_inside_macro")
                 .class_if(some, "non_nothing_result")
                 .obs(json!({"e": canon(&c.e), "substituted": canon(&s), "var": c.var, "macro": [mn, canon(mb)]})),
         )
@@ -192,14 +239,15 @@ impl Check for C12Pipe {
                 let mut g = Gen::new(&tape, GenCfg { ill: 1, bindings: false, exclude: vec!["exec", "trigger", "now", "env", "parse_selection", "|"], ..GenCfg::default() });
                 let env = Env::top();
                 let ak = *g.tape.pick(&[Num, Str, ArrNum, ArrStr, ArrObj, ObjNum, Rec, Bool, Any]);
-                let a = g.expr(ak, 2, &env);
+                // now and then a stage that returns its input unchanged
+                let a = if g.tape.chance(1, 8) { Expr::dot() } else { g.expr(ak, 2, &env) };
                 let env_b = env.with_dot(ak);
                 let bk = *g.tape.pick(&[Num, Str, ArrNum, Bool, Any, Arr]);
-                let b = g.expr(bk, 3, &env_b);
-                let c = if g.tape.chance(1, 3) {
-                    let mut g0 = Env::default();
-                    g0.chain = vec![bk];
-                    Some(g.expr(Any, 2, &g0))
+                let b = if g.tape.chance(1, 8) { Expr::dot() } else { g.expr(bk, 3, &env_b) };
+                let c = if g.tape.chance(1, 2) {
+                    // third stage: `.` = b's value, `^` = a's value, `^^` = the pipe's input
+                    let env_c = env_b.with_dot(bk);
+                    Some(g.expr(Any, 2, &env_c))
                 } else {
                     None
                 };
@@ -214,9 +262,11 @@ impl Check for C12Pipe {
         // (| a b)  ==  first of (map [a] b): map gives b the element as `.` and the caller's
         // input as `^`, which is what the property says about pipe
         let via_map = |x: &Expr, y: &Expr| Expr::call("first", vec![Expr::call("map", vec![Expr::call("push", vec![Expr::lit("[]"), x.clone()]), y.clone()])]);
+        // three stages: nested maps, so that inside c `.` = b's value, `^` = a's value and
+        // `^^` = the pipe's input - "the previous input as its parent", stage by stage
         let (pipe, model) = match &c.c {
             None => (Expr::call("|", vec![c.a.clone(), c.b.clone()]), via_map(&c.a, &c.b)),
-            Some(cc) => (Expr::call("|", vec![c.a.clone(), c.b.clone(), cc.clone()]), via_map(&via_map(&c.a, &c.b), cc)),
+            Some(cc) => (Expr::call("|", vec![c.a.clone(), c.b.clone(), cc.clone()]), via_map(&c.a, &via_map(&c.b, cc))),
         };
         let args = vec![select_arg(&pipe, "p", &sp), select_arg(&model, "m", &sp), select_arg(&c.a, "a", &sp)];
         // second formulation: --split-by=[a] then select b (`.` = a's value, `^` = the input)
@@ -256,11 +306,14 @@ impl Check for C12Pipe {
                 nontrivial = true;
             }
         }
-        parent_used |= c.b.uses_parent();
+        parent_used |= c.b.uses_parent() || c.c.as_ref().map(|x| x.uses_parent()).unwrap_or(false);
+        let identity_stage = c.a == Expr::dot() || c.b == Expr::dot();
         CaseResult::Pass(
             Info::new(nontrivial && (parent_used || c.c.is_some()))
                 .class_if(parent_used, "stage_reads_parent")
                 .class_if(c.c.is_some(), "three_stages")
+                .class_if(identity_stage, "identity_stage")
+                .class_if(c.c.as_ref().map(|x| x.uses_parent()).unwrap_or(false), "third_stage_reads_parent")
                 .class_if(nontrivial, "non_nothing_result")
                 .obs(json!({"pipe": canon(&pipe)})),
         )
